@@ -77,6 +77,14 @@ def ValErr.render (x : ValErr) : String := x.val.render ++ "(" ++ x.err.render +
 def withFlag (flag : String) (s : String) : String :=
   if (flag == "+" || flag == " ") && !(s.startsWith "-") then flag ++ s else s
 
+/-- `str(CObs)` (obs.py 1050-1052, since fix 8d3fccf): the two parts are joined by '+' unless the imaginary part prints with its
+    own sign -/
+def cobsStr (re im : String) : String :=
+  "(" ++ re ++ (if im.startsWith "-" then "" else "+") ++ im ++ "j)"
+
+/-- `format(CObs, spec)` (obs.py 1056-1062): the imaginary part is formatted with the '+' flag -/
+def cobsFormat (re im : String) : String := "(" ++ re ++ withFlag "+" im ++ "j)"
+
 /-- what `_extract_val_and_dval` computes from the printed string: the error is scaled by
     10^-(decimals of the value) exactly when the value has a decimal point and the error has none -/
 def readBack (x : ValErr) : Rat × Rat :=
